@@ -393,7 +393,15 @@ func func_Index(rtParams FunctionParameterTypes, val any) (any, error) {
 		return errBool(FT_Index, err)
 	}
 
+	if !param.IsInteger() {
+		return errBool(FT_Index, fmt.Errorf("index must be an integer"))
+	}
+
 	v := reflect.ValueOf(val)
+	if k := v.Kind(); (k == reflect.Slice || k == reflect.Array) && v.Len() == 0 {
+		return nil, fmt.Errorf("nothing in array")
+	}
+
 	if isEmptyValue(v) {
 		return decimal.Zero, nil
 	}
@@ -405,11 +413,11 @@ func func_Index(rtParams FunctionParameterTypes, val any) (any, error) {
 
 	switch v.Kind() {
 	case reflect.Slice, reflect.Array:
-		if v.Len()-1 >= int(param.IntPart()) {
-			return convertToDecimalIfNumber(v.Index(int(param.IntPart())).Interface()), nil
-		} else {
+		if param.IsNegative() || param.GreaterThanOrEqual(decimal.NewFromInt(int64(v.Len()))) {
 			return nil, fmt.Errorf("nothing in array")
 		}
+
+		return convertToDecimalIfNumber(v.Index(int(param.IntPart())).Interface()), nil
 	}
 
 	return false, fmt.Errorf("not array")
